@@ -13,6 +13,7 @@ import Driver.Containers
 import Driver.Effects
 import Driver.Pabulib
 import Driver.MESLazy
+import Driver.MESAnalytics
 open Pabu Pabu.Driver
 
 def dispatch (line : String) : String :=
@@ -24,6 +25,7 @@ def dispatch (line : String) : String :=
     | "mes" => cmdMes a
     | "mestrace" => cmdMesTrace a
     | "meslazy" => cmdMesLazy a
+    | "mesanalytics" => cmdMesAnalytics a
     | "greedy" => cmdGreedy a
     | "phragmen" => cmdPhragmen a
     | "maxw" => cmdMaxw a
